@@ -11,15 +11,16 @@ M = "own MIR->SMT-LIB2 symbolic executor over rustc's MIR of the real functions 
 
 CLAIMED = {
     # id: (technique, level text, level note, design_ref, has_thorough)
-    "C16": ("bounded symbolic model checking (Kani/CBMC) of constructors and encoders with fully symbolic scalar arguments",
-            "Every constructor of the FLP types, Prio3 and Prio2 is executed symbolically with each scalar argument ranging over its whole "
-            "type (u8/u64/u128/usize); CBMC proves absence of panics, arithmetic overflow, shift overflow, out-of-bounds indexing and "
-            "unwrap failures on every path, plus the accept/reject predicate where the API documents one; measurement encoders are "
-            "checked for every measurement value at small concrete type parameters. This is the right level because the defects live on "
-            "single points of a 2^64 domain (usize::MAX, 2^62) that no sampling reaches.",
-            "Bounded: type parameters of the encoder harnesses are small concrete instances; allocation-proportional arguments of the "
-            "length-accessor harnesses are bounded by 2^24. DP budget constructors (BigUint rationals) and verify_init argument checks "
-            "are outside. Trusted: Kani/CBMC/CaDiCaL, rustc MIR.", "DESIGN.md §4 C16", False),
+    "C16": ("bounded symbolic model checking (Kani/CBMC) of constructors, encoders and Prio3 protocol operations with fully symbolic arguments, plus a MIR->SMT interval pass over narrow-width arithmetic",
+            "Every constructor of the FLP types, Prio3 and Prio2 is executed symbolically with each scalar argument ranging over its whole type (u8/u64/u128/usize): "
+            "no panic, arithmetic overflow, shift overflow, out-of-bounds index or unwrap failure on any path, plus the accept/reject predicate where documented; length accessors of "
+            "accepted instances do not overflow (sizes <= 2^24); measurement encoders refuse every out-of-range or wrong-length measurement; Prio3's verifier_shares_to_message, verify_next, "
+            "verify_init (stub XOF) and the parameterised decoders refuse wrong share counts, wrong lengths, missing optional parts and out-of-range aggregator identifiers with an error. "
+            "Engine M proves every checked u8/u16/u32 operation in the protocol modules (incl. Poplar1::verify_init and Prio3::shard_with_random, which Kani cannot enter) overflow-free from "
+            "operand intervals derived from the MIR; unproved sites are replayed through native drivers.",
+            "Type parameters of the encoder/protocol harnesses are small concrete GF(17)/Field64 instances; one M site is proved under a listed invariant (aggregator index < num_aggregators <= 254); "
+            "word-sized arithmetic in functions Kani cannot enter, the DP constructors (BigUint) and Poplar1's operations beyond verify_init's integer arithmetic are outside. "
+            "Trusted: Kani/CBMC/CaDiCaL, z3/cvc5, rustc MIR.", "DESIGN.md §4 C16", True),
     "C01": ("bounded symbolic model checking (Kani/CBMC) of the measurement codecs and of one complete prove/query/decide run over GF(17)",
             "Narrow slice of the property: for every FLP type over GF(17) and every in-range measurement, encode_measurement yields the declared number of 0/1 "
             "elements, decode_result(truncate(encode(m))) = m (Sum for every max_measurement in {1,2,3,4,5,7,8,15,16}; Histogram; MultihotCountVec; L1BoundSum; Average as f64), "
@@ -92,6 +93,10 @@ CLAIMED = {
 }
 
 NOT_APPLICABLE = {
+    "C02": "rejection of invalid or tampered reports is FLP soundness (a probability bound) plus hash binding of the joint randomness; the structural refusals that are decidable (share count/length/missing parts, decide = reference predicate, circuits = specification) are decided under C16 and C05 and are too thin to carry this property",
+    "C03": "sharding, IDPF evaluation and the sketch run through the bitvec crate (CBMC out of memory) and AES/TurboSHAKE on symbolic input; the only reachable piece (u16 arithmetic of verify_init, aggregation-parameter codec header) is decided under C16/C07/C08",
+    "C04": "accepted-implies-one-hot is a probabilistic statement about the sketch over IDPF outputs (bitvec + XOF, not encodable); the planned GF(17) state-machine harnesses for verify_next/next_message were not built in the time available, so nothing of this property is claimed",
+    "C19": "Prio2::new is decided under C16; proof packing, generate_verification_message over GF(17) and the Prio2 codecs were planned but not built in the time available; client proof generation is hard-wired to an AES-CTR Prng and the query-point exclusion is a 32-bit root-of-unity test, both outside this family's reach",
     "C06": "IDPF: every entry point (IdpfInput, Idpf::gen/eval, caches, public-share codec) is built on the bitvec crate, which drives CBMC out of memory (65 GB) on a 3-bit input, and on AES/TurboSHAKE over symbolic seeds; not encodable by the solver-based family here",
     "C14": "quantifies over rayon work-stealing schedules; Kani does not model threads and the fold/reduce closures cannot be driven without rayon - a hand model would verify the model, not the code",
     "C15": "an exact probability law over random tapes computed with heap BigUint rationals inside unbounded rejection loops; a measure, not a forall-assertion, and num-bigint division is far beyond bit-blasting reach",
